@@ -78,6 +78,13 @@ def gen(tier, rng):
             s["poc_type"] = 1
             s["offsets_ref_frame"] = [rng.randrange(-3, 4) for _ in range(rng.choice([256, 256, 257, 300]))]
         cases.append("sps raw:" + hx(g.enc_sps(s, rng).bytes()))
+    # one Exp-Golomb element displaced by a multiple of 256 (what a narrowing cast would alias onto the valid value)
+    from vlib import bitgen
+    for _ in range(1500 if tier == "quick" else 30000):
+        s = g.gen_sps(rng, force={"profile_idc": rng.choice(g.CHROMA_PROFILES)} if rng.random() < 0.5 else {})
+        if len(s["offsets_ref_frame"]) > 7:
+            s["offsets_ref_frame"] = s["offsets_ref_frame"][:2]
+        cases.append("sps raw:" + hx(bitgen.aliased(rng, lambda: g.enc_sps(s, rng).bytes())))
     # random bytes
     for _ in range(500 if tier == "quick" else 10000):
         cases.append("sps raw:" + hx(bytes(rng.randrange(256) for _ in range(rng.randrange(0, 40)))))
